@@ -176,10 +176,14 @@ func (c *tracingHTTP2Conn) handleFrame(frame http2.Frame, isRequest bool) {
 		if stream == nil {
 			return
 		}
-		if isRequest {
+		switch {
+		case isRequest:
 			stream.requestTracer.trace(frame.Data())
-		} else {
+		case stream.gotResponse:
 			stream.responseTracer.trace(frame.Data())
+		default:
+			// Malformed: response data w/out response headers. The response
+			// tracer is not set up yet, so there is nothing to trace into.
 		}
 		if frame.StreamEnded() {
 			c.closeStreamLocked(frame.StreamID, stream, isRequest, nil)
